@@ -4,13 +4,15 @@
    The full-strength statement [C09_statement] is FALSE for the code as it is (finding F02): the
    printer omits parentheses for the parent / position / child-kind combinations listed in
    [Shape.bad_pair]; each entry is refuted below by a witness ([C09_refuted_*]), and the statement
-   is proved for the complement ([C09_partial]).  Scope of the proved fragment: every node kind
-   except array literals and LAMBDA definitions / calls ([Shape.fragment]); all three text forms:
+   is proved for the complement ([C09_partial]).  Scope: every node kind the parser can return
+   (operators of every level, unary minus and percent, ranges, references, arrays, built-in and
+   user functions with empty arguments, LAMBDA definitions and calls, @ and #, names, errors,
+   strings, numbers); all three text forms:
    the display form in every locale and language, the stored R1C1 form, and the xlsx form (the
    printer with export_to_excel = true, where "@x" and "x#" are function calls and therefore never
    bad pairs). *)
 From IronCalc Require Import Base.Prelude Codec.RefA1 Syntax.Token Syntax.Ast Syntax.Printer Syntax.Parser
-  Syntax.Shape Syntax.ShapeProofs Syntax.GlueProofs Syntax.RoundTrip Syntax.Refuted.
+  Syntax.Shape Syntax.ShapeProofs Syntax.GlueProofs Syntax.RoundTrip Syntax.FixedProofs Syntax.FuelProofs Syntax.Refuted.
 
 (* the property at full strength: every tree the parser can return, in every text form, comes
    back from the tokens the lexer reads from its printed text *)
@@ -29,22 +31,64 @@ Theorem C09_bad_pair_table : forall xlsx e, bad_child xlsx e = bad_child_table x
 Proof. exact bad_child_is_table. Qed.
 Print Assumptions C09_bad_pair_table.
 
-(* the complement: no bad pair (and no array, no LAMBDA, lower-case user function names) *)
+(* the complement: no bad pair (and user function names already in lower case, finding F62) *)
 Theorem C09_partial :
   forall m nm env e,
-  image m nm env e = true -> fragment e = true -> no_bad (pm_xlsx m) e = true -> lower_stable nm e = true ->
+  image m nm env e = true -> no_bad (pm_xlsx m) e = true -> lower_stable nm e = true ->
   forall f, (size e + 2 <= f)%nat -> parse_fuel m nm env f (print m nm e) = Some (e, []).
-Proof. exact roundtrip. Qed.
+Proof. exact roundtrip_all. Qed.
 Print Assumptions C09_partial.
 
 (* where the lexer reads the printed tokens back one by one, that is the property itself *)
 Theorem C09_partial_lexed :
   forall m nm env e,
-  image m nm env e = true -> fragment e = true -> no_bad (pm_xlsx m) e = true -> lower_stable nm e = true ->
+  image m nm env e = true -> no_bad (pm_xlsx m) e = true -> lower_stable nm e = true ->
   glue_free (pm_rc m) (print m nm e) = true ->
   forall f, (size e + 2 <= f)%nat -> parse_fuel m nm env f (glue (pm_rc m) (print m nm e)) = Some (e, []).
 Proof. exact roundtrip_glued. Qed.
 Print Assumptions C09_partial_lexed.
+
+(* ... and with the parser's own fuel (2 * tokens + 3): exactly the conclusion of [C09_statement],
+   under the premises that name the findings: no bad pair (F02), lower-case user function names
+   (F62), no lexer glue around ':' (F04 family) *)
+Theorem C09_partial_statement :
+  forall m nm env e,
+  image m nm env e = true -> no_bad (pm_xlsx m) e = true -> lower_stable nm e = true ->
+  glue_free (pm_rc m) (print m nm e) = true ->
+  parse m nm env (glue (pm_rc m) (print m nm e)) = Some (e, []).
+Proof. exact roundtrip_parse_glued. Qed.
+Print Assumptions C09_partial_statement.
+
+Theorem C09_partial_parse :
+  forall m nm env e,
+  image m nm env e = true -> no_bad (pm_xlsx m) e = true -> lower_stable nm e = true ->
+  parse m nm env (print m nm e) = Some (e, []).
+Proof. exact roundtrip_parse. Qed.
+Print Assumptions C09_partial_parse.
+
+(* the same theorem for ANY parenthesis policy: a printer that makes the decisions [pol] reads back
+   every tree that has no bad pair relative to [pol] *)
+Theorem C09_policy :
+  forall m nm env pol, (forall n, pol_neg pol (ENum n) = false) ->
+  forall e, image m nm env e = true -> no_bad_with pol (pm_xlsx m) e = true -> lower_stable nm e = true ->
+  forall f, (size e + 2 <= f)%nat -> parse_fuel m nm env f (gprint m nm pol e) = Some (e, []).
+Proof. exact roundtrip_policy. Qed.
+Print Assumptions C09_policy.
+
+(* ... in particular for the proposed repair F02 ([Printer.fixed_policy], notes/C09.md): with the
+   added match arms no bad pair is left, and the statement holds for every tree the parser can
+   return (in all three text forms; user function names in lower case, F62) *)
+Theorem C09_repaired :
+  forall m nm env e, image m nm env e = true -> lower_stable nm e = true ->
+  forall f, (size e + 2 <= f)%nat -> parse_fuel m nm env f (print_fixed m nm e) = Some (e, []).
+Proof. exact roundtrip_fixed. Qed.
+Print Assumptions C09_repaired.
+
+Theorem C09_repaired_parse :
+  forall m nm env e, image m nm env e = true -> lower_stable nm e = true ->
+  parse m nm env (print_fixed m nm e) = Some (e, []).
+Proof. exact roundtrip_parse_fixed. Qed.
+Print Assumptions C09_repaired_parse.
 
 (* non-vacuity: -(2^3)%+(1<2)*SUM(,R[0]C[0])  — stored form, all hypotheses hold *)
 Example C09_partial_nonvacuous :
